@@ -6,6 +6,7 @@ mixing integer and fixed-point operands are built with the real classes; decimal
 Python floats made from decimal strings (0.29 has no exact binary representation), while the specification gets
 their exact scaled integers.  TLC executes the emitted bytecode and judges the destination / the markers."""
 import itertools
+import struct
 import json
 import operator
 import os
@@ -31,6 +32,10 @@ RAWS = [0, 1, -1, 29000, 100000, 99999, 100001, 350000, -29000, 12345678, 2 ** 3
 INTS = [0, 1, -1, 2, 3, 7, -7, 100000, 2 ** 31, 2 ** 40, 12]
 
 
+def dst_format(dstfixed):
+    return "x" if dstfixed is True else "q" if dstfixed is False else dstfixed
+
+
 def build(op, lk, rk, dstfixed, lc, rc, use_kernel=False, scope=None):
     """lk / rk operand kinds; lc / rc the constant (int or decimal string) when the kind is a constant;
     scope: None or the name of a temporary inside whose block the statement is placed"""
@@ -40,7 +45,8 @@ def build(op, lk, rk, dstfixed, lc, rc, use_kernel=False, scope=None):
     m = ArrayMap()
     hm = HashMap() if lk.endswith("hash") or rk.endswith("hash") else None
     decl = lambda k: (hm if k.endswith("hash") else m).globalVar("x" if k.startswith("fix") else "q")
-    ns = dict(license="GPL", m=m, la=decl(lk), lb=decl(rk), out=m.globalVar("x" if dstfixed else "q"),
+    # dstfixed: True (fixed-point destination), False (8-byte integer), or the format of an integer destination
+    ns = dict(license="GPL", m=m, la=decl(lk), lb=decl(rk), out=m.globalVar(dst_format(dstfixed)),
               mk1=m.globalVar("B"), mk2=m.globalVar("B"), mk3=m.globalVar("B"))
     if hm is not None:
         ns["hm"] = hm
@@ -161,8 +167,34 @@ def shapes_of(quick):
     return shapes
 
 
+def byte_order_destinations(quick):
+    """fixed-point values stored into INTEGER variables declared with a byte order and / or narrower than 8 bytes:
+    the value is dropped to an integer first and swapped last.  (A seeded change swapped first; every destination
+    of this check had been a native 8-byte variable.)"""
+    out = []
+    pairs = [("fixvar", "iconst"), ("fixvar", "fixvar"), ("intvar", "fconst"), ("fixreg", "intvar"),
+             ("fconst", "iconst"), ("fixhash", "intvar"), ("intvar", "fixvar")]
+    k = 0
+    for fmt in (">q", "<q", ">i", "!h", "<I", ">Q", "i", "H"):
+        for op in ("mov", "add", "sub", "mul", "truediv", "floordiv"):
+            for lk, rk in pairs:
+                if op == "mov" and rk != "iconst":
+                    continue
+                if lk.endswith("const") and rk.endswith("const") and op != "mov":
+                    continue
+                k += 1
+                if quick and k % 2:
+                    continue
+                lc = ICONSTS[k % len(ICONSTS)] if lk == "iconst" else FCONSTS[k % len(FCONSTS)]
+                rc = ICONSTS[(k * 3 + 1) % len(ICONSTS)] if rk == "iconst" else FCONSTS[(k * 5 + 2) % len(FCONSTS)]
+                if op in ("truediv", "floordiv") and rk == "iconst" and rc == 0:
+                    rc = 3
+                out.append((op, lk, rk, fmt, lc, rc))
+    return out
+
+
 def run(ctx):
-    run_shapes(ctx, shapes_of(ctx.quick), 5 if ctx.quick else 10)
+    run_shapes(ctx, shapes_of(ctx.quick) + byte_order_destinations(ctx.quick), 5 if ctx.quick else 10)
 
 
 def run_shapes(ctx, shapes, nvec, part=""):
@@ -212,7 +244,10 @@ def run_shapes(ctx, shapes, nvec, part=""):
                 else:
                     buf[off:off + 8] = bytes(word(v, 8))
             c = progs.case(b, arr={arrfd: bytes(buf)}, hashes=hashes)
-            c.update(op=op, l=lr, r=rr, dstfixed=dstfixed, dst=dict(fd=arrfd, off=inst.__dict__["out"], size=8), n=N,
+            dfmt = dst_format(dstfixed)
+            c.update(op=op, l=lr, r=rr, dstfixed=dstfixed is True,
+                     dst=dict(fd=arrfd, off=inst.__dict__["out"], size=8 if dfmt == "x" else struct.calcsize(dfmt),
+                              be=dfmt[0] in ">!"), n=N,
                      marks=[dict(i=i, fd=arrfd, off=inst.__dict__[f"mk{i}"]) for i in (1, 2, 3)],
                      ast=dict(k="const", v=word(0, N)), leaves=[])
             cases.append(c)
@@ -250,7 +285,7 @@ def run_shapes(ctx, shapes, nvec, part=""):
         counts[kind] += 1
         ctx.traces += 1
         ctx.evaluated(tuple(sorted(m.items(), key=lambda x: x[0])) if False else repr(m), nontrivial=kind != "skipped")
-        if kind == "ok" and m["op"] in ARITH and m["dstfixed"]:
+        if kind == "ok" and m["op"] in ARITH and m["dstfixed"] is True:
             # the Python-side read back of the result: the float nearest to raw / 100000
             raw = int.from_bytes(bytes(got), "little", signed=True)
             back = py_read(insts[i - 1], "out", got)
@@ -265,7 +300,7 @@ def run_shapes(ctx, shapes, nvec, part=""):
             ctx.case_failed(dict(m, verdict=kind, status=st_, observed=got, admissible=expected, div_on_negative=divneg),
                             f"{m['left']}({m['va'] if m['lconst'] is None else m['lconst']}) {m['op']} "
                             f"{m['right']}({m['vb'] if m['rconst'] is None else m['rconst']}) -> "
-                            f"{'fixed' if m['dstfixed'] else 'int'}: {kind} {st_ or ''} observed {got} admissible {expected}")
+                            f"{'fixed' if m["dstfixed"] is True else 'int'}: {kind} {st_ or ''} observed {got} admissible {expected}")
     if part:
         ctx.extra[part + "verdicts"] = counts
         ctx.extra[part + "statements"] = len(shapes)
